@@ -1262,6 +1262,8 @@ class Interp:
         if handler is not None:
             return handler(self, st, env)
         it = self.eval(st.iter, env)
+        if hasattr(it, "for_loop"):
+            return it.for_loop(self, st, env)  # summarised loop over a symbolic sequence
         items = self.iterate(it)
         for v in items:
             self.assign_target(st.target, v, env)
@@ -1571,7 +1573,8 @@ class Interp:
 
     def _scalar(self, v):
         return (
-            v is None
+            getattr(v, "pure_compare", False)
+            or v is None
             or v is NAN
             or isinstance(v, (bool, int, float, Fraction, str, Num, IdStr))
             or (z3.is_expr(v) and z3.is_bool(v))
@@ -1611,6 +1614,8 @@ class Interp:
                 return self.compare(op, a, b)
             if isinstance(op, (ast.Lt, ast.LtE, ast.Gt, ast.GtE)):
                 if _isnum(a) and _isnum(b) and not isinstance(a, bool) and not isinstance(b, bool):
+                    return self.compare(op, a, b)
+                if getattr(a, "pure_compare", False) or getattr(b, "pure_compare", False):
                     return self.compare(op, a, b)
             raise Unsafe()
         if isinstance(e, ast.IfExp):
